@@ -4,6 +4,6 @@ CONSTANTS
   Variants = {TRUE}
 INIT Init
 NEXT Next
-INVARIANTS ModelledOnly MachineIsConv AtMostOneInv CarriesInv MetaMemberInv NodeRuleInv WayGeomInv RouteInv OptionsInv SkipInv
+INVARIANTS ModelledOnly MachineIsConv AsIsIsIdeal AtMostOneInv CarriesInv MetaMemberInv NodeRuleInv WayGeomInv RouteInv OptionsInv SkipInv
 PROPERTY InputUnmodified
 CHECK_DEADLOCK FALSE
